@@ -32,7 +32,7 @@ LEVEL = "exploration"
 RULE = (
     "case = call set: limiter total 1-4, 1-12 calls each (kind: return | raise | "
     "from_thread.run callback | from_thread.run_sync callback | check_cancelled probe, "
-    "abandon_on_cancel on/off, nested scope on/off, cancel plan: none | before the function "
+    "abandon_on_cancel on/off, nested scope on/off, caller's scope shielded or not, cancel plan: none | before the function "
     "starts | while it runs | after its gate opened), seeded gate-opening permutation with "
     "sub-millisecond delays, seeded sys.monitoring delay injection; on asyncio(debug) and "
     "uvloop. Non-trivial = more calls than tokens were in flight, or a caller was cancelled "
@@ -95,7 +95,10 @@ def gen_case(rng: random.Random, cfg: str) -> dict:
         cancel = rng.choice([None, None, "early", "running", "running", "late"])
         calls.append({"kind": rng.choice(KINDS), "abandon": rng.random() < 0.3,
                       "nested": rng.random() < 0.4, "cancel": cancel,
-                      "stagger": rng.randint(0, 3)})  # fmt: skip
+                      "stagger": rng.randint(0, 3),
+                      # the cancelled scope around the call may itself be shielded (cleanup
+                      # idiom): it is then still the caller's own, visible cancellation
+                      "shield": rng.random() < 0.3})  # fmt: skip
 
     order = list(range(n))
     rng.shuffle(order)
@@ -189,8 +192,11 @@ def execute(case: dict) -> dict:
         cv.set(("cv", i))
         rec: dict = {"returned": False, "reached_after": False}
         outcomes[i] = rec
-        with CancelScope() as sc:
+        with CancelScope(shield=bool(spec.get("shield"))) as sc:
             scopes[i] = sc
+            if spec.get("shield"):
+                window("caller_scope_shielded")
+
             try:
                 if spec["nested"]:
                     with CancelScope():
